@@ -36,6 +36,38 @@ def parse_sync(out):
         return None
 
 
+def block_ddmin(items, failing, keep_first=1, budget=140):
+    """structure-aware, budgeted shrinking: first whole blocks (a room definition up to its `install`,
+    a batch up to its `sync`), last block first, then single lines, last line first. Every test is
+    one run of the harness on a fresh instance, hence the budget."""
+    head, body = items[:keep_first], items[keep_first:]
+    tests = [0]
+
+    def still(cand):
+        if tests[0] >= budget: return False
+        tests[0] += 1
+        return failing(head + cand)
+
+    blocks, cur = [], []
+    for l in body:
+        cur.append(l)
+        if l.startswith("install ") or l.startswith("sync "):
+            blocks.append(cur); cur = []
+    if cur: blocks.append(cur)
+    i = len(blocks) - 1
+    while i >= 0 and len(blocks) > 1:
+        cand = blocks[:i] + blocks[i + 1:]
+        if still([l for b in cand for l in b]): blocks = cand
+        i -= 1
+    body = [l for b in blocks for l in b]
+    i = len(body) - 1
+    while i >= 0:
+        cand = body[:i] + body[i + 1:]
+        if cand and still(cand): body = cand
+        i -= 1
+    return head + body
+
+
 class RoomSpec:
     """the room definition as an event list; decisions computed from the events alone:
     the entry in force for a key (an entity) at date d is the one with the greatest date <= d,
@@ -106,6 +138,16 @@ class C02(Cfg):
         path = os.path.join(work, "random.ops")
         lib.sh([dv, "gen", "--prop", "C02", "--seed", str(seed), "--n", str(n), "--out", path], check=True)
         return [("random seed=%d n=%d" % (seed, n), path, False)]
+
+    def run(self, tier, seed):
+        """the standard pipeline with the structure-aware shrinker (a harness run costs an instance start)"""
+        from . import engine
+        saved = lib.ddmin
+        lib.ddmin = block_ddmin
+        try:
+            return engine.run(self, tier, seed)
+        finally:
+            lib.ddmin = saved
 
     def nontrivial(self, ops, outs):
         prev = None
@@ -223,17 +265,23 @@ class C02(Cfg):
             return (int(a["r"]), int(a["src"]), int(a["se"]), int(a["dst"]), int(a["l"]), int(a["c"]), int(a["d"]), int(a["k"]))
 
         deleted_edges = set()
+        applied = [a for a in pend["edel"] if stopped > 0 and edel_key(a) in p["ED"]]
         for t in p["ED"] - cur["ED"]:
-            m = [a for a in pend["edel"] if edel_key(a) == t]
-            if stopped <= 0 or not m: fail("edge-log-unjustified", "log entry %s matches no received record" % (t,)); continue
-            first_ok(m, judge_edel)
+            if not [a for a in applied if edel_key(a) == t]:
+                fail("edge-log-unjustified", "log entry %s matches no received record" % (t,))
+        judged = set()
         for e in cur["E"] - p["E"]:
-            m = [a for a in pend["edel"] if (int(a["src"]), int(a["se"]), int(a["l"]), int(a["dst"]), int(a["c"])) == e[:5]]
+            m = [a for a in applied if (int(a["src"]), int(a["se"]), int(a["l"]), int(a["dst"]), int(a["c"])) == e[:5]]
             repl = [x for x in p["E"] if (x[0], x[2], x[3]) == (e[0], e[2], e[3])]
-            if m and stopped > 0:
+            if repl: m = [a for a in m if edel_key(a) not in cur["ED"] or not judge_edel(a)]
+            if m:
                 deleted_edges.add(e)
-                if not repl or any(not judge_edel(a) for a in m): first_ok(m, judge_edel)
+                for a in m: judged.add(edel_key(a))
+                first_ok(m, judge_edel)
             elif not repl: fail("edge-removed-unjustified", "reference %s disappeared" % (e,))
+        for t in p["ED"] - cur["ED"]:
+            m = [a for a in applied if edel_key(a) == t]
+            if m and t not in judged: first_ok(m, judge_edel)
 
         # ---- node deletion records
         def judge_ndel(a):
@@ -250,23 +298,32 @@ class C02(Cfg):
                 obj.append(("deletion-entity-mismatch", "record names entity %d, the deleted row %d is of entity %d" % (ent, id_, old[2])))
             return obj
 
-        for t in p["ND"] - cur["ND"]:
-            m = [a for a in pend["ndel"] if (int(a["r"]), int(a["id"]), int(a["e"]), int(a["m"]), int(a["d"]), int(a["k"])) == t]
-            if stopped <= 1 or not m: fail("node-log-unjustified", "log entry %s matches no received record" % (t,)); continue
-            first_ok(m, judge_ndel)
+        def ndel_key(a):
+            return (int(a["r"]), int(a["id"]), int(a["e"]), int(a["m"]), int(a["d"]), int(a["k"]))
+
+        applied_n = [a for a in pend["ndel"] if stopped > 1 and ndel_key(a) in p["ND"]]
+        judged = set()
         deleted_rows = set()
+        for t in p["ND"] - cur["ND"]:
+            if not [a for a in applied_n if ndel_key(a) == t]:
+                fail("node-log-unjustified", "log entry %s matches no received record" % (t,))
         for id_, old in before_n.items():
-            m = [a for a in pend["ndel"] if int(a["id"]) == id_ and old[1] is not None and int(a["r"]) == old[1]]
             new = after_n.get(id_)
-            if m and stopped > 1 and (new is None or any(not judge_ndel(a) for a in m)):
-                # the row was (or may have been) deleted before the insertion stage
-                if new is None:
-                    first_ok(m, judge_ndel)
-                    deleted_rows.add(id_)
-                elif new != old and any(not judge_ndel(a) for a in m):
-                    deleted_rows.add(id_)
+            m = [a for a in applied_n if int(a["id"]) == id_ and old[1] is not None and int(a["r"]) == old[1]]
+            # a record whose log entry existed already may have been refused this time: it counts as
+            # applied only if the row vanished, the entry is new, or nothing speaks against it
+            if new is not None:
+                m = [a for a in m if ndel_key(a) not in cur["ND"] or not judge_ndel(a)]
+            if m and (new is None or new != old):
+                # the row was deleted before the insertion stage (the record is in the log)
+                deleted_rows.add(id_)
+                for a in m: judged.add(ndel_key(a))
+                first_ok(m, judge_ndel)
             elif new is None:
                 fail("row-removed-unjustified", "row %s disappeared" % (old,))
+        for t in p["ND"] - cur["ND"]:
+            m = [a for a in applied_n if ndel_key(a) == t]
+            if m and t not in judged: first_ok(m, judge_ndel)
 
         # ---- rows that appeared or changed
         def judge_node(a, new, old):
